@@ -10,3 +10,10 @@ pub fn state_view(s: &RotationState) -> (u64, bool, bool, bool, bool) {
 }
 
 pub use super::{RotatedKey, RotationMessage, RotationState};
+
+/// public keys of the ephemeral pairs a rotation state currently holds: (proposed, pending)
+pub fn key_view(s: &RotationState) -> (Option<Vec<u8>>, Option<Vec<u8>>) {
+    let prop = s.proposed.as_ref().map(|p| RotationState::compute_public_key(p).bytes().to_vec());
+    let pend = s.pending.as_ref().map(|(_, p)| p.bytes().to_vec());
+    (prop, pend)
+}
